@@ -572,6 +572,9 @@ func CondRelation(a, b *Cond) (aImpB, bImpA bool, witness string) {
 }
 
 func CondEquivalent(a, b *Cond) (bool, string) {
+	if a.String() == b.String() {
+		return true, "" // syntactically the same condition (also when it contains atoms outside the fragment)
+	}
 	x, y, w := CondRelation(a, b)
 	return x && y, w
 }
